@@ -26,7 +26,7 @@ import (
 )
 
 const (
-	MaxThreads = 48
+	MaxThreads = 2048
 	MaxPoints  = 1 << 16
 	MaxEvents  = 1 << 14
 	StepCap    = 1 << 21
